@@ -40,6 +40,8 @@ def run(ctx):
         ctx.cfg = c
         ctx.guard("C14", "enginemap-" + c, lambda: engine.engine_correspondence(ctx, base, progs[c]))
     if "dbg" in cfgs:
+        ctx.cfg = "dbg"
+        ctx.guard("C14", "assert-pure", lambda: features.assertions_pure(ctx, progs["dbg"]))
         # checked vs unchecked forms: the asserts of a checked form are exactly the beliefs of the `_internal` body its unchecked twin
         # calls directly (a checked form that refuses an in-contract value, or admits an out-of-contract one, makes the twins disagree)
         ctx.cfg = "dbg"
